@@ -247,6 +247,10 @@ func runC10(c *Ctx) {
 		c.floor("C10.3", "argument-map inserts", nIns, 1)
 	}
 
+	ruleArgumentOnlyWhenUnsupplied(c, "C10.3")
+	ruleIsContextType(c, "C10.6")
+	ruleTypeIdentity(c, "C10.6", genPkg)
+
 	// ---- C10.4 emission
 	c10Emission(c)
 
